@@ -14,10 +14,11 @@ def run(tier):
         "CUT: ShipConnection.handleState is replaced by a recorder of timeout deliveries (the reaction to a timeout is C01/C04's subject)",
         "this check has no data symbols: the deciding step is the exhaustive bounded exploration of schedules and arm/stop programs by the engine; the SMT solver is only consulted for feasibility (none needed here)",
     ]
+    c.assumptions.append("concurrent part (H_C14_Concurrent): two goroutines arm (short / long, different timer types) and optionally stop at the same time; the timer the connection reports as current once both are done is the only one that may deliver, at its own deadline")
     ops = 3
     pre = 4 if tier == "thorough" else 3
     c.bounds = {"arm_stop_operations": ops, "preemption_bound": pre, "timer_goroutines": ops}
-    entries = ["H_C14_Timer2", "H_C14_Timer3"] + (["H_C14_Timer4"] if tier == "thorough" else [])
+    entries = ["H_C14_Timer2", "H_C14_Timer3", "H_C14_Concurrent"] + (["H_C14_Timer4"] if tier == "thorough" else [])
     res, meta = lib.run_engine("ship", entries, sched="explore", preempt=pre, cuts=C14_CUTS, loop=80, paths=3000000)
     c.add_run("timer-schedules", res, meta)
     for e, r in (res or {}).items():
